@@ -3,4 +3,5 @@ NEXT Next
 INVARIANT Judged
 INVARIANT Conservation
 INVARIANT NeverTooMany
+INVARIANT NoTaskBeyondItsLargestShare
 POSTCONDITION Post
